@@ -1,5 +1,5 @@
 CONSTANTS Names = {"a", "b", "c"}
-  Steps = {"s1", "s2"}
+  Steps = {"s0", "s1", "s2"}
   Reqs = {"r1", "r2"}
   MaxOps = 4
 SPECIFICATION Spec
